@@ -460,6 +460,12 @@ class Delta:
 
             # Insert is only true for iterables, make sure it is a valid index.
             if(insert and elem < len(obj)):  # type: ignore
+                if isinstance(obj, tuple):
+                    # a tuple has no insert: make it a list now, it is converted back in post processing
+                    obj = self._coerce_obj(
+                        parent, obj, path, parent_to_obj_elem,
+                        parent_to_obj_action, elements,
+                        to_type=list, from_type=tuple)
                 obj.insert(elem, None)  # type: ignore
 
             self._set_new_value(parent, parent_to_obj_elem, parent_to_obj_action,
